@@ -9,7 +9,9 @@ import (
 	"bytes"
 	"fmt"
 	"io"
+	"runtime"
 	"sort"
+	"sync"
 
 	"github.com/ipfs/go-cid"
 	"github.com/ipld/go-ipld-prime/datamodel"
@@ -73,6 +75,11 @@ type ReadFault struct {
 	Kind    FaultKind
 	After   int    // EIOMid: bytes delivered before the error
 	Replace []byte // Corrupt: bytes delivered instead
+	// Err, if set, is returned instead of an InjectedError: real stores fail
+	// with well-known error values (io.ErrUnexpectedEOF for a block file cut
+	// short, a *fs.PathError wrapping fs.ErrNotExist, ...), and code that
+	// special-cases such values must not mistake them for something else.
+	Err error
 }
 
 // WritePoint identifies a step of the write protocol.
@@ -90,6 +97,7 @@ func (p WritePoint) String() string { return [...]string{"open", "write", "commi
 type WriteFault struct {
 	Kind  FaultKind
 	After int // EIOMid on WWrite: bytes accepted before the error
+	Err   error // see ReadFault.Err
 }
 
 // Event is one entry of the seam log.
@@ -136,6 +144,31 @@ type Store struct {
 	Fired map[string]int // fault kind -> times it actually fired
 	// ReadCids is the ordered list of requested CIDs (every request).
 	ReadCids []cid.Cid
+
+	// mu serialises the read seam: code under test that fans requests out over
+	// goroutines of its own must not corrupt the simulated disk, and the
+	// number of distinct goroutines seen is itself an observation.
+	mu        sync.Mutex
+	TrackGIDs bool
+	gids      map[uint64]bool
+}
+
+// ReaderGoroutines is the number of distinct goroutines that issued read
+// requests since the last ResetLog (only counted when TrackGIDs is set).
+func (s *Store) ReaderGoroutines() int { return len(s.gids) }
+
+func curGID() uint64 {
+	var buf [64]byte
+	n := runtime.Stack(buf[:], false)
+	// "goroutine 123 [running]:..."
+	var id uint64
+	for _, c := range buf[len("goroutine "):n] {
+		if c < '0' || c > '9' {
+			break
+		}
+		id = id*10 + uint64(c-'0')
+	}
+	return id
 }
 
 func New() *Store {
@@ -165,6 +198,16 @@ func (s *Store) inject(kind FaultKind, notFound bool) *InjectedError {
 	s.tokens++
 	s.Fired[kind.String()]++
 	return &InjectedError{Token: fmt.Sprintf("tok-%d-%d", s.seq, s.tokens), Kind: kind, notFound: notFound}
+}
+
+// injectAs counts the fault and returns override when it is set.
+func (s *Store) injectAs(kind FaultKind, notFound bool, override error) error {
+	e := s.inject(kind, notFound)
+	if override != nil {
+		s.Fired["flavoured-error"]++
+		return override
+	}
+	return e
 }
 
 // Put stores a block directly (harness-side, not logged).
@@ -237,6 +280,7 @@ func (s *Store) ResetLog() {
 	s.Log = nil
 	s.ReadCids = nil
 	s.reads = 0
+	s.gids = nil
 }
 
 // Restart returns a fresh store holding only the durable state: what a
@@ -267,6 +311,8 @@ type simReader struct {
 }
 
 func (r *simReader) Read(p []byte) (int, error) {
+	r.s.mu.Lock()
+	defer r.s.mu.Unlock()
 	if r.failAt >= 0 && r.off >= r.failAt {
 		r.s.log("ReadErr", r.c, "eio-mid", r.off)
 		return 0, r.err
@@ -304,6 +350,14 @@ func (s *Store) ReadOpener(_ linking.LinkContext, l datamodel.Link) (io.Reader, 
 	if !ok {
 		return nil, fmt.Errorf("simstore: unsupported link type %T", l)
 	}
+	s.mu.Lock()
+	defer s.mu.Unlock()
+	if s.TrackGIDs {
+		if s.gids == nil {
+			s.gids = map[uint64]bool{}
+		}
+		s.gids[curGID()] = true
+	}
 	c := cl.Cid
 	nth := s.reads
 	s.reads++
@@ -321,10 +375,10 @@ func (s *Store) ReadOpener(_ linking.LinkContext, l datamodel.Link) (io.Reader, 
 		switch f.Kind {
 		case NotFound:
 			s.log("ReadOpen", c, "notfound", 0)
-			return nil, s.inject(NotFound, true)
+			return nil, s.injectAs(NotFound, true, f.Err)
 		case EIOOpen:
 			s.log("ReadOpen", c, "eio-open", 0)
-			return nil, s.inject(EIOOpen, false)
+			return nil, s.injectAs(EIOOpen, false, f.Err)
 		case EIOMid:
 			if have {
 				after := f.After
@@ -332,7 +386,7 @@ func (s *Store) ReadOpener(_ linking.LinkContext, l datamodel.Link) (io.Reader, 
 					after = len(data)
 				}
 				s.log("ReadOpen", c, "eio-mid-armed", after)
-				return &simReader{s: s, c: c, data: data, failAt: after, err: s.inject(EIOMid, false)}, nil
+				return &simReader{s: s, c: c, data: data, failAt: after, err: s.injectAs(EIOMid, false, f.Err)}, nil
 			}
 		case Corrupt:
 			s.Fired["corrupt"]++
@@ -389,7 +443,7 @@ func (w *simWriter) Write(p []byte) (int, error) {
 			w.buf.Write(p[:k])
 			w.dead = true
 			s.log("Write", cid.Undef, "torn", k)
-			return k, s.inject(EIOMid, false)
+			return k, s.injectAs(EIOMid, false, f.Err)
 		}
 	}
 	if s.Quota > 0 && s.durableLen+w.buf.Len()+len(p) > s.Quota {
@@ -412,6 +466,9 @@ func (s *Store) CrashNow() { s.crash() }
 
 // WriteOpener is the StorageWriteOpener of this store.
 func (s *Store) WriteOpener(_ linking.LinkContext) (io.Writer, linking.BlockWriteCommitter, error) {
+	if s.Yield != nil {
+		s.Yield() // park point for concurrent builders
+	}
 	nth := s.wsteps[WOpen]
 	s.wsteps[WOpen]++
 	ev := s.wevents
@@ -431,12 +488,15 @@ func (s *Store) WriteOpener(_ linking.LinkContext) (io.Writer, linking.BlockWrit
 			return nil, nil, s.inject(Crash, false)
 		case EIOOpen, EIOMid:
 			s.log("WriteOpen", cid.Undef, "eio-open", 0)
-			return nil, nil, s.inject(EIOOpen, false)
+			return nil, nil, s.injectAs(EIOOpen, false, f.Err)
 		}
 	}
 	s.log("WriteOpen", cid.Undef, "ok", 0)
 	w := &simWriter{s: s}
 	commit := func(l datamodel.Link) error {
+		if s.Yield != nil {
+			s.Yield()
+		}
 		nth := s.wsteps[WCommit]
 		s.wsteps[WCommit]++
 		ev := s.wevents
@@ -460,7 +520,7 @@ func (s *Store) WriteOpener(_ linking.LinkContext) (io.Writer, linking.BlockWrit
 				return s.inject(Crash, false)
 			case CommitFail, EIOOpen, EIOMid:
 				s.log("Commit", cl.Cid, "commit-fail", 0)
-				return s.inject(CommitFail, false)
+				return s.injectAs(CommitFail, false, f.Err)
 			}
 		}
 		if w.dead {
